@@ -127,6 +127,46 @@ theorem flush_phase6 (k : Kcp) (full : Bool) (now : U32) :
     unfold flushX
     exact ⟨rfl, rfl⟩
 
+/-- `flush_phase6` with the send-side fields of the state handed to phase 6 -/
+theorem flush_phase6x (k : Kcp) (full : Bool) (now : U32) :
+    ∃ (k5 : Kcp) (change lost : Nat),
+      (flush k full now).k = phase6 k5 (effCwnd k) (resentOf k) change lost ∧
+      k5.nocwnd = k.nocwnd ∧ k5.cwnd = k.cwnd ∧ k5.snd_nxt = (flushAd k now).nxt ∧ k5.snd_una = k.snd_una ∧
+      (full = true → lost = flushLost k now) ∧ (full = false → lost = 0 ∧ change = 0) := by
+  rw [flush_eq]
+  simp only []
+  obtain ⟨pw, tp, h3⟩ := flushP3_k k now
+  generalize flushP3 k now = f3 at h3
+  have e4 : (flushP4 f3 now).k =
+      { f3.k with snd_queue := (flushAd f3.k now).queue, snd_buf := (flushAd f3.k now).buf, snd_nxt := (flushAd f3.k now).nxt } := rfl
+  have ead : flushAd f3.k now = flushAd k now := by rw [h3]; rfl
+  have eeff : effCwnd f3.k = effCwnd k := by rw [h3]; rfl
+  have eres : resentOf (flushP4 f3 now).k = resentOf k := by rw [e4, h3]; rfl
+  obtain ⟨st, hx⟩ := flushX_k (flushP4 f3 now) full now k.wndUnused k.rcv_nxt (flushAd f3.k now).count
+  generalize hxdef : flushX (flushP4 f3 now) full now k.wndUnused k.rcv_nxt (flushAd f3.k now).count = x at hx ⊢
+  refine ⟨{ x.f.k with snd_buf := x.done }, x.change, x.lost, ?_, ?_, ?_, ?_, ?_, ?_, ?_⟩
+  · rw [eeff, eres]
+  · show x.f.k.nocwnd = _
+    rw [hx, e4, h3]
+  · show x.f.k.cwnd = _
+    rw [hx, e4, h3]
+  · show x.f.k.snd_nxt = _
+    rw [hx, e4, ← ead]
+  · show x.f.k.snd_una = _
+    rw [hx, e4, h3]
+  · intro hf
+    subst hf
+    rw [← hxdef]
+    unfold flushX
+    rw [if_pos rfl, xmitFold_lost, eres, e4]
+    show 0 + (flushAd f3.k now).buf.countP _ = _
+    rw [ead]; unfold flushLost; omega
+  · intro hf
+    subst hf
+    rw [← hxdef]
+    unfold flushX
+    exact ⟨rfl, rfl⟩
+
 /-- `rto_collapse`: a full flush that retransmits at least one segment by timeout leaves `cwnd = 1`
 (with congestion control on) -/
 theorem flush_rto_collapse (k : Kcp) (now : U32) (hn : k.nocwnd = 0) (hl : flushLost k now > 0) :
